@@ -86,4 +86,50 @@ theorem request_object_at_most_once_all_schedules (strict incl : Bool) (st : Sto
     successes (run (today strict incl) sched (init st (rs.map (fun x => Req.burn (reqObjReq x.1 x.2))))) (reqObjKey id) ≤ 1 :=
   at_most_one_success_atomic (today strict incl) (Or.inr (Or.inl (today_gad_locked strict incl))) st _ sched (reqObjKey id) .reqObj rfl
 
+/-! ### every endpoint = its threads -/
+
+theorem today_mark_locked (strict incl : Bool) (m : MarkKind) : (today strict incl).mark m = .locked := by
+  cases m
+  · show todayMarkS2S = .locked
+    decide
+  · show todayMarkJti = .locked
+    decide
+
+/-- **Refinement, all endpoints at once**: for EVERY request of every modelled endpoint (token endpoint with any grant and any
+    parameter subset, OpenID4VP authorization response, request-object fetch by GET / POST, landing page, DPoP validation),
+    every store it meets, every instant and back-end, the request-level handler — mirrored statement by statement from the
+    Go source — leaves the one-time stores exactly as its threads of the schedule model (`formThreads`: one `code` thread;
+    one `s2s` mark thread per presentation the nonce loop reaches; one consuming or k Delete-only `vpNonce` threads; one
+    `reqObj` / `redirect` / `jti` thread; none for a request refused before the store) leave them when they run one after the
+    other under today's configuration.  So the thread programs the all-schedules theorems quantify over are the handlers'. -/
+theorem every_endpoint_refines_its_threads (strict incl : Bool) (pk : Pkce) (now : Nat) (st : Store) (f : Form)
+    (hp : ∀ s, (handleForm ⟨incl, now, todayTTL⟩ pk st f).1 ≠ .panic s) :
+    threadsStore (today strict incl) now st (formThreads ⟨incl, now, todayTTL⟩ pk st f) = (handleForm ⟨incl, now, todayTTL⟩ pk st f).2 :=
+  handleForm_eq_threads (today strict incl) (today_gad_locked strict incl) (today_mark_locked strict incl) (fun _ => rfl) pk now st f hp
+
+/-- non-vacuity: an s2s envelope of three presentations whose second nonce is used: two mark threads (the loop stops at the
+    used one), the first nonce stays registered; a code request without verifier: one Delete-only thread, the code is gone -/
+example :
+    let c : Sq := ⟨true, 0, todayTTL⟩
+    let st : Store := [(s2sKey "x2", ⟨"true", 900⟩), (codeKey "c1", ⟨"clientA", 300⟩)]
+    formThreads c ⟨"S256", fun _ => true⟩ st (.token { grantType := "vp_token-bearer", assertion := some ["x1", "x2", "x3"], submission := true, scope := true, clientId := some "a" })
+      = [.mark { kind := .s2s, id := "x1" }, .mark { kind := .s2s, id := "x2" }] ∧
+    (soloCalls (today false true) 0 st (formThreads c ⟨"S256", fun _ => true⟩ st (.token { grantType := "authorization_code", code := some "c1", clientId := some "clientA" }))).1
+      = ["del:code/c1"] ∧
+    (handleForm c ⟨"S256", fun _ => true⟩ st (.token { grantType := "authorization_code", code := some "c1", clientId := some "clientA" })).2
+      = [(s2sKey "x2", ⟨"true", 900⟩)] := by
+  decide
+
+/-- the threads of a batch of requests of any endpoints (each compiled against the store it would meet alone) -/
+def compileAll (c : Sq) (pk : Pkce) (st : Store) (fs : List Form) : List Req := fs.flatMap (formThreads c pk st)
+
+/-- **End to end, all endpoints, all interleavings**: any batch of requests of any endpoints — token requests with codes,
+    s2s envelopes, authorization responses (consuming and burn-all), request-object fetches, landing-page calls, DPoP
+    validations, mixed — their threads interleaved in EVERY way at single-store-call granularity, clock ticks anywhere, any
+    back-end: at most one request is honoured per burn-on-use secret of any kind. -/
+theorem any_endpoints_at_most_once_all_schedules (strict incl : Bool) (c : Sq) (pk : Pkce) (st : Store) (fs : List Form)
+    (sched : List Ev) (k : Key) (b : BurnKind) (hk : k.ns = .burn b) :
+    successes (run (today strict incl) sched (init st (compileAll c pk st fs))) k ≤ 1 :=
+  at_most_one_success_atomic (today strict incl) (Or.inr (Or.inl (today_gad_locked strict incl))) st _ sched k b hk
+
 end Nuts.C05.Props
